@@ -10,7 +10,7 @@
   `ScoreLaws.window`) the window after the first iteration is `(s, s)`, every result fails low or high,
   the widening `factor * 0` is 0 — `for !awOk` never ends unless the search is stopped; and for any
   window size `factor` doubles in int16 and is 0 from the 17th failure on.  What bounds the chain is the
-  argument of Proofs/SearchScoreFree.lean (`AspLaws`: `WindowSize = 44`; `AspInv`): un-aborted results
+  argument of Proofs/SearchScoreFree.lean (`AspLaws`: a safe window size, `39..44` or `78..88`; `AspInv`): un-aborted results
   lie within `±Inf`, a side of the window that has left `±Inf` cannot fail again, `factor` doubles at
   every failure, so a failure is possible only while `factor ≤ 512`: AT MOST TEN FAILURES, the eleventh
   search of an iteration is in-window or aborted.  "Results within `±Inf`" is the score-range theorem,
@@ -43,13 +43,13 @@ theorem lg_step {f : Int} (h : Pow2 f) : lg (wrapS16 (f * 2)) = lg f + 1 := by
   unfold Pow2 at h
   rcases h with rfl | rfl | rfl | rfl | rfl | rfl | rfl | rfl | rfl | rfl | rfl <;> decide
 
-theorem lg_le {a b f : Int} (h : AspInv a b f) : lg f ≤ 10 := by
+theorem lg_le {W a b f : Int} (h : AspInv W a b f) : lg f ≤ 10 := by
   rcases h with ⟨_, _, hf⟩ | ⟨_, _, _, _, _, _, _, _, hp, _⟩
   · subst hf; decide
   · unfold Pow2 at hp
     rcases hp with rfl | rfl | rfl | rfl | rfl | rfl | rfl | rfl | rfl | rfl | rfl <;> decide
 
-theorem aspInv_pow2 {a b f : Int} (h : AspInv a b f) : Pow2 f := by
+theorem aspInv_pow2 {W a b f : Int} (h : AspInv W a b f) : Pow2 f := by
   rcases h with ⟨_, _, hf⟩ | ⟨_, _, _, _, _, _, _, _, hp, _⟩
   · exact Or.inl hf
   · exact hp
@@ -71,7 +71,7 @@ theorem aspiration_fuel (c : Comp σ π) (L : Limits) {Good : Board → Prop} {T
     (hl : Laws c Good) (sl : ScoreLaws c Good TTok μ) (al : AspLaws c) {fuel : Nat} (idD : Int)
     (hroot : RootFuel c L Good fuel idD) :
     ∀ (n : Nat) (alpha beta factor : Score) (s : St σ), Good s.board → TTA2 TTok s →
-      (s.ttOut = false → s.fuelOut = false ∧ AspInv alpha beta factor ∧ 11 ≤ n + lg factor) →
+      (s.ttOut = false → s.fuelOut = false ∧ AspInv c.windowSize alpha beta factor ∧ 11 ≤ n + lg factor) →
       FuelGuard (aspiration c L fuel idD n alpha beta factor s).st := by
   intro n
   induction n with
@@ -85,9 +85,9 @@ theorem aspiration_fuel (c : Comp σ π) (L : Limits) {Good : Board → Prop} {T
     intro alpha beta factor s hg htt hinv
     have hab := alphaBeta_spec c L hl fuel alpha beta idD 0 .pv s hg htt.1 (Int.le_refl 0)
     have hrg := alphaBeta_range2 c L hl sl fuel alpha beta idD 0 .pv s hg (Int.le_refl 0) (by decide)
-      (fun hA => (aspInv_win (hinv hA).2.1).1) htt
+      (fun hA => (aspInv_win al.windowSafe (hinv hA).2.1).1) htt
     have hfr := fun hfo => hroot alpha beta s hg htt.1 hfo
-    simp only [aspiration, al.window44]
+    simp only [aspiration]
     generalize alphaBeta c L fuel alpha beta idD 0 .pv s = r at hab hrg hfr ⊢
     have haf := abort_frame L r.2
     have hps := abort_ps L r.2
@@ -117,7 +117,7 @@ theorem aspiration_fuel (c : Comp σ π) (L : Limits) {Good : Board → Prop} {T
         have hb2 : as.2.board = s.board := by rw [haf.board, hab.1.board]
         refine ih _ _ _ as.2 (by rw [hb2]; exact hg) htt2 (fun hA => ?_)
         obtain ⟨_, hi, hn⟩ := hinv (hback hA)
-        refine ⟨hfo2 hA, aspInv_step hi (hsr hA) hout, ?_⟩
+        refine ⟨hfo2 hA, aspInv_step al.windowSafe hi (hsr hA) hout, ?_⟩
         rw [lg_step (aspInv_pow2 hi)]
         omega
 
@@ -138,7 +138,7 @@ theorem idLoop_fuel (c : Comp σ π) (L : Limits) (clock : Clock) {Good : Board 
     (b : Board) (hg : Good b) :
     ∀ (n : Nat) (idD : Int) (v : IDVars) (s : St σ), s.board = b → 0 ≤ idD → (n : Int) + idD = 64 →
       (s.pondering = true → L.ponder.isSome = true) →
-      TTA2 TTok s → (s.ttOut = false → s.fuelOut = false ∧ AspInv v.alpha v.beta 1) →
+      TTA2 TTok s → (s.ttOut = false → s.fuelOut = false ∧ AspInv c.windowSize v.alpha v.beta 1) →
       FuelGuard (idLoop c L clock fuel n idD v s).st := by
   intro n
   induction n with
@@ -206,8 +206,8 @@ theorem idLoop_fuel (c : Comp σ π) (L : Limits) (clock : Clock) {Good : Board 
           · intro hA
             have hA' : s'.ttOut = false := hA
             refine ⟨hfo hA', ?_⟩
-            show AspInv (wrapS16 (sample - c.windowSize)) (wrapS16 (sample + c.windowSize)) 1
-            rw [al.window44]; exact aspInv_first (hokc' hA').1
+            show AspInv c.windowSize (wrapS16 (sample - c.windowSize)) (wrapS16 (sample + c.windowSize)) 1
+            exact aspInv_first al.windowSafe (hokc' hA').1
 
 /-- `go` from the root-level fuel facts. -/
 theorem go_fuel_of_root (c : Comp σ π) (L : Limits) (clock : Clock) {Good : Board → Prop} {TTok : σ → Prop}
